@@ -574,6 +574,9 @@ class Run:
             if knobs.get('crash_on_request_p'):
                 from vsim.faults import crash_target_on_request
                 crash_target_on_request(self, knobs['crash_on_request_p'], **knobs.get('crash_on_request_kw', {}))
+            if knobs.get('lost_requests_p'):
+                from vsim.faults import drop_start_requests
+                drop_start_requests(self, self.rng.choice(knobs['lost_requests_p']))
             if knobs.get('drop_p'):
                 from vsim.faults import drop_process_publications
                 drop_process_publications(self, self.rng.choice(knobs['drop_p']))
